@@ -2,4 +2,11 @@
 EXTENDS Sampler
 W5 == <<2, 0, 1, 3, 1>>
 W3 == <<1, 1, 0>>
+\* the size rule for all requests up to 400 and up to 32 replicas (evaluated once when TLC starts); the padding half is also
+\* proved for ALL naturals in spec/proofs/SamplerProof.tla (TLAPS)
+SizeRuleAll == \A num \in 0..400, r \in 1..32 :
+    /\ Total(num, r, TRUE) <= num /\ num - Total(num, r, TRUE) < r
+    /\ Total(num, r, FALSE) >= num /\ Total(num, r, FALSE) - num < r
+    /\ PerRank(num, r, TRUE) = num \div r
+ASSUME SizeRuleAll
 =============================================================================
